@@ -105,7 +105,7 @@ func c15Run(cs c15Case, r *rt.Result) (sig, detail string) {
 	m := &c15Model{}
 	type saved struct {
 		pi, di, flat int
-		ok            bool
+		ok           bool
 	}
 	var sv, svW, svR saved
 	written := 0 // bytes written (wrb/alt); reads never go beyond
